@@ -48,16 +48,18 @@ def subst(v, b):
 
 def tpl_src(t):
     if t['group']:
-        a = [('id', t['id'])] + ([('class', t['cls'])] if t['cls'] else [])
+        a = [('id', t.get('idsrc', t['id']))] + ([('class', t['cls'])] if t['cls'] else [])
         return '<g%s>%s</g>' % (''.join(' %s="%s"' % kv for kv in a), ''.join(xmlcanon.el(n, at) for n, at in t['kids']))
-    a = [('id', t['id'])] + t['size'] + ([('text', t['text'])] if t['text'] else []) + ([('class', t['cls'])] if t['cls'] else [])
+    a = [('id', t.get('idsrc', t['id']))] + t['size'] + ([('text', t['text'])] if t['text'] else []) + ([('class', t['cls'])] if t['cls'] else [])
     return xmlcanon.el(t['kind'], a)
 
 
 def inst_src(t, inst):
-    a = [('href', '#' + t['id'])]
+    a = [('href', '#' + (t['idsrc'] if inst.get('href_computed') else t['id']))]
     if inst['id']: a.append(('id', inst['id']))
-    if inst['xy']: a += [('x', str(inst['xy'][0])), ('y', str(inst['xy'][1]))]
+    if inst['xy']:
+        if inst.get('only') != 'y': a.append(('x', str(inst['xy'][0])))
+        if inst.get('only') != 'x': a.append(('y', str(inst['xy'][1])))
     a += [(k, str(inst['b'][k])) for k in ('w', 'h', 'label') if k not in inst['omit']]
     if inst['cls']: a.append(('class', inst['cls']))
     if inst['style']: a.append(('style', inst['style']))
@@ -83,7 +85,8 @@ def twin_src(t, inst):
     if inst['xy']:
         x, y = inst['xy']
         if t['kind'] == 'rect':
-            a += [('x', str(x)), ('y', str(y))]
+            if inst.get('only') != 'y': a.append(('x', str(x)))
+            if inst.get('only') != 'x': a.append(('y', str(y)))
         elif t['kind'] == 'circle':
             a += [('cx', '{{%d + %s}}' % (x, b['w'])), ('cy', '{{%d + %s}}' % (y, b['w']))]
         else:
@@ -117,11 +120,18 @@ def run(ctx):
     cases = []; pairs = []
     for i in range(n):
         t = tpl_group(rng, 't%d' % i) if rng.chance(0.35) else tpl_shape(rng, 't%d' % i)
-        place = rng.choice(['specs', 'specs', 'defs', 'specs-after'])
+        place = rng.choice(['specs', 'specs', 'defs', 'specs-after'] + (['inline', 'defs'] if t['group'] else []))
+        if rng.chance(0.2):         # a template whose id is computed: it is found under the evaluated id
+            t['idsrc'] = t['id'] + rng.choice(['_$kk', '_${kk}', '_{{3 + 4}}']); t['id'] = t['id'] + '_7'
         insts = []
         for j in range(rng.range(1, 5)):
+            only = rng.choice([None, None, None, 'x', 'y']) if (t['group'] or t.get('kind') == 'rect') else None
+            xy = (rng.range(-10, 40), rng.range(-10, 40)) if rng.chance(0.7) else None
+            if xy and only == 'y': xy = (0, rng.choice([-5, -1, 3, -12]))
+            if xy and only == 'x': xy = (rng.choice([-5, 4, -1]), 0)
+            if xy and only is None and rng.chance(0.1): xy = (0, -rng.range(1, 9))
             insts.append({'id': ('i%d_%d' % (i, j)) if rng.chance(0.4) else None,
-                          'xy': (rng.range(-10, 40), rng.range(-10, 40)) if rng.chance(0.7) else None,
+                          'xy': xy, 'only': only if xy else None, 'href_computed': 'idsrc' in t and rng.chance(0.4),
                           'b': {'w': rng.range(1, 12), 'h': rng.range(1, 12), 'label': rng.choice(['hi', 'A1', 'x y', 'Z'])},
                           'cls': rng.choice([None, 'rc', 'rc d-red']), 'style': rng.choice([None, None, 'fill:red']),
                           'omit': set(rng.sample(['w', 'h', 'label'], rng.range(0, 2))) if rng.chance(0.4) else set()})
@@ -135,9 +145,9 @@ def run(ctx):
             f = rng.choice(filler)
             prog.append(f + inst_src(t, inst)); twin.append(f + twin_src(t, inst))
         tsrc = tpl_src(t)
-        ovar = '<var w="%d" h="%d" label="outer"/>' % (outer['w'], outer['h'])
+        ovar = '<var w="%d" h="%d" label="outer" kk="7"/>' % (outer['w'], outer['h'])
         late = '<rect id="late" xy="70 70" wh="2"/>'
-        wrap = {'specs': '<specs>%s</specs>', 'defs': '<defs>%s</defs>', 'specs-after': '<specs>%s</specs>'}[place] % tsrc
+        wrap = {'specs': '<specs>%s</specs>', 'defs': '<defs>%s</defs>', 'specs-after': '<specs>%s</specs>', 'inline': '%s'}[place] % tsrc
         # the twin keeps the template where it was (it is not rendered in specs; in defs it is emitted by both)
         if place == 'specs-after':
             p = '<svg>%s%s%s%s</svg>' % (ovar, ''.join(prog), wrap, late); u = '<svg>%s%s%s%s</svg>' % (ovar, ''.join(twin), wrap, late)
